@@ -142,6 +142,8 @@ class Upload:
     async def handle_upload(self, request):
         self.calls.append((request.path, request.size, bytes(request.content)))
         await asyncio.sleep(0)
+        if self.behaviour == "slow":
+            await asyncio.sleep(3600)          # still working when the scenario looks at the timer
         if self.behaviour == "raise":
             raise OSError("disk full")
         return GeminiResponse(status=20, meta="text/gemini", body="# ok\n")
@@ -175,7 +177,7 @@ def cuts(data, how):
     raise AssertionError(how)
 
 
-async def drive(data_parts, handler_kind, behaviour, chain_outcome, upload, extra_reads=(), fire_timeout=None, lose_connection_at=None, lose_exc=None, lose_after=False):
+async def drive(data_parts, handler_kind, behaviour, chain_outcome, upload, extra_reads=(), fire_timeout=None, lose_connection_at=None, lose_exc=None, lose_after=False, stop_before_completion=False):
     spy = Spy(behaviour)
     handler = spy.sync if handler_kind == "sync" else spy.make_async()
     chain = Chain(chain_outcome) if chain_outcome else None
@@ -218,6 +220,9 @@ async def drive(data_parts, handler_kind, behaviour, chain_outcome, upload, extr
     for _ in range(6):
         await asyncio.sleep(0)
     timer_pending = bool(p.timeout_handle) and not p.timeout_handle.cancelled() if p.timeout_handle else False
+    if stop_before_completion:
+        for task in [t_ for t_ in asyncio.all_tasks() if t_ is not asyncio.current_task()]:
+            task.cancel()
     if p.timeout_handle:
         p.timeout_handle.cancel()
     return dict(out_before_loss=getattr(t, "out_before_loss", None) if getattr(t, "lost", False) else t.out, out=t.out, closed=t.closed, close_calls=t.close_calls, handler_calls=len(spy.calls), chain_calls=list(chain.calls) if chain else None,
@@ -391,6 +396,13 @@ def bank(focus=None):
             bad.append(f"silent peer not answered 40 and closed: {r['out'][:40]!r} closed={r['closed']}")
         if bad:
             return dict(confirmed=True, input=dict(received=repr(line), event="request timer fires"), observed=dict(violated=bad), clause="silent peers are disconnected with a 40 response")
+    for line_, up_ in ((b"titan://example.org/up.txt;size=4;mime=text/plain\r\nabcd", "slow"), (b"titan://example.org/up.txt;size=4;mime=text/plain\r\n", "slow")):
+        tried += 1
+        parts_ = [line_] if line_.endswith(b"abcd") else [line_, b"abcd"]
+        r = run(drive(parts_, "sync", "ok", "allow", up_, stop_before_completion=True))
+        if r["timer_pending"]:
+            return dict(confirmed=True, input=dict(request=repr(line_), reads=len(parts_), upload_handler="still running"), observed="request timer still armed while the complete upload is being answered",
+                        clause="a timeout never fires once a complete request is being answered")
     r = run(drive([VALID], "async", "ok", "allow", None))
     if r["timer_pending"]:
         return dict(confirmed=True, input=dict(request=VALID.decode()), observed="request timer still armed after the request was dispatched", clause="a timeout never fires once a complete request is being answered")
